@@ -655,4 +655,278 @@ theorem pre_ids_nodup_of_preInv {s : St} (h : PreInv s) (hn : PreNamesInj s.copi
   rw [hu, hv, hq.2] at heq
   exact hk hcopy (uidOf_inj q heq.2)
 
+/-! ### no pending execution has a job record yet -/
+
+def IdIn (job : List JobRes) (n u : String) : Prop := ∃ y ∈ job, y.name = n ∧ y.uid = u
+
+theorem warnFirst_ids (n u : String) (job : List JobRes) (x : JobRes) (hx : x ∈ warnFirst n u job) :
+    IdIn job x.name x.uid := by
+  induction job with
+  | nil => simp [warnFirst] at hx
+  | cons y ys ih =>
+    unfold warnFirst at hx
+    split at hx
+    · rcases List.mem_cons.mp hx with rfl | hx
+      · exact ⟨y, List.mem_cons_self, rfl, rfl⟩
+      · exact ⟨x, List.mem_cons_of_mem _ hx, rfl, rfl⟩
+    · rcases List.mem_cons.mp hx with rfl | hx
+      · exact ⟨x, List.mem_cons_self, rfl, rfl⟩
+      · obtain ⟨z, hz, h1, h2⟩ := ih hx
+        exact ⟨z, List.mem_cons_of_mem _ hz, h1, h2⟩
+
+theorem arrive_ids (job : List JobRes) (n u : String) (o : Outcome) (x : JobRes) (hx : x ∈ arrive job n u o) :
+    IdIn job x.name x.uid ∨ (x.name = n ∧ x.uid = u) := by
+  cases o with
+  | never => exact Or.inl ⟨x, hx, rfl, rfl⟩
+  | reported st t d =>
+    simp only [arrive, List.mem_append, List.mem_singleton] at hx
+    rcases hx with hx | rfl
+    · exact Or.inl ⟨x, hx, rfl, rfl⟩
+    · exact Or.inr ⟨rfl, rfl⟩
+
+theorem record_ids {results : List Result} {job : List JobRes} {n u : String} {y : JobRes} {r : Settled}
+    (h : record results job n u y = .ok r) (x : JobRes) (hx : x ∈ r.job) : IdIn job x.name x.uid := by
+  unfold record at h
+  simp only at h
+  split at h
+  · cases h
+    simp only at hx
+    split at hx
+    · exact warnFirst_ids _ _ _ _ hx
+    · exact ⟨x, hx, rfl, rfl⟩
+  · cases h
+
+/-- the job records after the polling part carry identifiers of earlier records or of this very execution -/
+theorem settle_ids {results : List Result} {job : List JobRes} {n u : String} {o : Outcome} {r : Settled}
+    (h : settle results job n u o = .ok r) (x : JobRes) (hx : x ∈ r.job) :
+    IdIn job x.name x.uid ∨ (x.name = n ∧ x.uid = u) := by
+  have lift : ∀ {j : List JobRes} {a b : String}, IdIn (arrive job n u o) a b →
+      IdIn job a b ∨ (a = n ∧ b = u) := by
+    intro j a b ⟨y, hy, h1, h2⟩
+    rcases arrive_ids job n u o y hy with ⟨z, hz, h3, h4⟩ | ⟨h3, h4⟩
+    · exact Or.inl ⟨z, hz, h3.trans h1, h4.trans h2⟩
+    · exact Or.inr ⟨h1 ▸ h3, h2 ▸ h4⟩
+  unfold settle at h
+  simp only at h
+  split at h
+  · rename_i y hy
+    by_cases hd : (o.delay == 0) = true
+    · simp only [hd, if_true] at h
+      cases hr : record results (arrive job n u o) n u y with
+      | error e => rw [hr] at h; cases h
+      | ok r0 =>
+        rw [hr] at h; simp only [Except.map] at h; cases h
+        exact lift (j := job) (record_ids hr x hx)
+    · simp only [hd, Bool.false_eq_true, if_false] at h
+      cases hr : record results job n u y with
+      | error e => rw [hr] at h; cases h
+      | ok r0 =>
+        rw [hr] at h; simp only [Except.map] at h; cases h
+        simp only at hx
+        rcases arrive_ids r0.job n u o x hx with ⟨z, hz, h1, h2⟩ | h'
+        · obtain ⟨w, hw, h3, h4⟩ := record_ids hr z hz
+          exact Or.inl ⟨w, hw, h3.trans h1, h4.trans h2⟩
+        · exact Or.inr h'
+  · split at h
+    · split at h
+      · exact lift (j := job) (record_ids h x hx)
+      · cases h; exact arrive_ids job n u o x hx
+    · cases h; exact arrive_ids job n u o x hx
+
+def copyNames (cs : List Copy) : List String := cs.map (fun c => c.name)
+def preNames (cs : List Copy) : List String := cs.map (fun c => c.preName)
+/-- the pre-nodes are named differently from the nodes of the class -/
+def PreSep (cs : List Copy) : Prop := ∀ p ∈ preNames cs, p ∉ copyNames cs
+
+structure ReadInv (s : St) : Prop where
+  count : CountInv s
+  pendIssued : ∀ e ∈ s.pending, e ∈ s.issued
+  pendK : s.pending.Pairwise (fun a b => a.k ≠ b.k)
+  jobIds : ∀ x ∈ s.job, (∃ e ∈ s.issued, e.name = x.name ∧ e.uid = x.uid) ∨ x.name ∈ preNames s.copies
+  pendFresh : ∀ e ∈ s.pending, ¬ IdIn s.job e.name e.uid
+
+theorem issued_name_mem {s : St} (h : CountInv s) {e : Exec} (he : e ∈ s.issued) : e.name ∈ copyNames s.copies := by
+  obtain ⟨p, hp, _⟩ := h.issuedStatic e he
+  simp only [statics, List.mem_map] at hp
+  obtain ⟨c, hc, heq⟩ := hp
+  simp only [Prod.mk.injEq] at heq
+  exact List.mem_map.mpr ⟨c, hc, heq.1⟩
+
+theorem beginExec_readInv (s : St) (i : Nat) (c : Copy) (hc : s.copies[i]? = some c)
+    (hcl : ClassOK s.copies) (hsep : PreSep s.copies) (h : ReadInv s) : ReadInv (beginExec s i c).1 := by
+  have hcount := beginExec_countInv s i c hc h.count
+  have hpre : preNames (beginExec s i c).1.copies = preNames s.copies := map_updCopy _ _ _ _ (fun _ => rfl)
+  have hnod := ids_nodup_of_countInv hcount (by unfold ClassOK; rw [statics_beginExec]; exact hcl)
+  refine ⟨hcount, ?_, ?_, ?_, ?_⟩
+  · intro e he
+    simp only [beginExec, List.mem_append, List.mem_singleton] at he
+    simp only [beginExec, List.mem_cons]
+    rcases he with he | rfl
+    · exact Or.inr (h.pendIssued e he)
+    · exact Or.inl rfl
+  · simp only [beginExec]
+    refine List.pairwise_append.mpr ⟨h.pendK, List.pairwise_singleton _ _, ?_⟩
+    intro a ha b hb
+    rw [List.mem_singleton] at hb; subst hb
+    have := h.count.kLt a (h.pendIssued a ha)
+    simp only; omega
+  · intro x hx
+    rw [hpre]
+    rcases h.jobIds x hx with ⟨e, he, h1, h2⟩ | hp
+    · exact Or.inl ⟨e, by simp only [beginExec, List.mem_cons]; exact Or.inr he, h1, h2⟩
+    · exact Or.inr hp
+  · intro e he
+    simp only [beginExec, List.mem_append, List.mem_singleton] at he
+    rcases he with he | rfl
+    · exact h.pendFresh e he
+    · rintro ⟨y, hy, h1, h2⟩
+      simp only [beginExec] at hy
+      rcases h.jobIds y hy with ⟨e0, he0, h3, h4⟩ | hp
+      · simp only [beginExec, List.map_cons, List.nodup_cons] at hnod
+        apply hnod.1
+        exact List.mem_map.mpr ⟨e0, he0, by rw [h3, h4, h1, h2]⟩
+      · apply hsep _ hp
+        rw [h1]
+        exact List.mem_map.mpr ⟨c, List.mem_of_getElem? hc, rfl⟩
+
+theorem ids_ne_of_k_ne {s : St} (h : CountInv s) (hcl : ClassOK s.copies) {a b : Exec} (ha : a ∈ s.issued)
+    (hb : b ∈ s.issued) (hk : a.k ≠ b.k) : ¬ (a.name = b.name ∧ a.uid = b.uid) := by
+  intro ⟨hn, hu⟩
+  obtain ⟨p, hp, hpu⟩ := h.issuedStatic a ha
+  obtain ⟨q, hq, hqu⟩ := h.issuedStatic b hb
+  have hpq : p = q := hcl _ hp _ hq hn
+  subst hpq
+  rw [hpu, hqu] at hu
+  exact hk (uidOf_inj p hu)
+
+theorem pairwise_getElem?_ne {α : Type} {R : α → α → Prop} (hsym : ∀ a b, R a b → R b a) {l : List α}
+    (h : l.Pairwise R) {i j : Nat} {a b : α} (hi : l[i]? = some a) (hj : l[j]? = some b) (hne : i ≠ j) : R a b := by
+  obtain ⟨hi', rfl⟩ := List.getElem?_eq_some_iff.mp hi
+  obtain ⟨hj', rfl⟩ := List.getElem?_eq_some_iff.mp hj
+  rw [List.pairwise_iff_getElem] at h
+  rcases Nat.lt_or_gt_of_ne hne with hlt | hgt
+  · exact h i j hi' hj' hlt
+  · exact hsym _ _ (h j i hj' hi' hgt)
+
+theorem ReadInv.mono {s s' : St} (h : ReadInv s) (hc : CountInv s') (hi : s'.issued = s.issued)
+    (hp : s'.pending = s.pending) (hj : s'.job = s.job) (hn : preNames s'.copies = preNames s.copies) : ReadInv s' := by
+  refine ⟨hc, ?_, ?_, ?_, ?_⟩
+  · rw [hp, hi]; exact h.pendIssued
+  · rw [hp]; exact h.pendK
+  · rw [hj, hi, hn]; exact h.jobIds
+  · rw [hp, hj]; exact h.pendFresh
+
+theorem preNames_step (s : St) (ev : Event) : preNames (step s ev).1.copies = preNames s.copies :=
+  map_step _ (fun _ _ => rfl) s ev
+
+theorem copyNames_step (s : St) (ev : Event) : copyNames (step s ev).1.copies = copyNames s.copies :=
+  map_step _ (fun _ _ => rfl) s ev
+
+theorem step_readInv (s : St) (ev : Event) (hcl : ClassOK s.copies) (hsep : PreSep s.copies) (h : ReadInv s) :
+    ReadInv (step s ev).1 := by
+  have hcount := step_countInv s ev h.count
+  have hpn := preNames_step s ev
+  cases ev with
+  | start i =>
+    simp only [step, start] at hcount hpn ⊢
+    cases hc : s.copies[i]? with
+    | none => exact h
+    | some c =>
+      simp only
+      split
+      · exact h
+      · exact beginExec_readInv s i c hc hcl hsep h
+  | replay i prev =>
+    simp only [step, replayStep] at hcount hpn ⊢
+    cases hc : s.copies[i]? with
+    | none => exact h
+    | some c =>
+      simp only [hc] at hcount hpn ⊢
+      split
+      · rename_i he; simp only [he, if_true] at hcount hpn
+        exact h.mono hcount rfl rfl rfl hpn
+      · exact h
+  | finish j o =>
+    simp only [step, finish] at hcount hpn ⊢
+    cases hp : s.pending[j]? with
+    | none => exact h
+    | some e =>
+      simp only [hp] at hcount hpn ⊢
+      cases hc : s.copies[e.copy]? with
+      | none => exact h
+      | some c =>
+        simp only [hc] at hcount hpn ⊢
+        cases hs : settle c.results s.job e.name e.uid o with
+        | error err => exact h
+        | ok r =>
+          simp only [hs] at hcount hpn ⊢
+          have he : e ∈ s.pending := List.mem_of_getElem? hp
+          refine ⟨hcount, ?_, ?_, ?_, ?_⟩
+          · intro e' he'; exact h.pendIssued e' (List.mem_of_mem_eraseIdx he')
+          · exact List.Pairwise.sublist (List.eraseIdx_sublist _ _) h.pendK
+          · intro x hx
+            simp only at hx
+            rw [hpn]
+            rcases settle_ids hs x hx with ⟨y, hy, h1, h2⟩ | ⟨h1, h2⟩
+            · rcases h.jobIds y hy with ⟨e0, he0, h3, h4⟩ | hp'
+              · exact Or.inl ⟨e0, he0, h3.trans h1, h4.trans h2⟩
+              · exact Or.inr (h1 ▸ hp')
+            · exact Or.inl ⟨e, h.pendIssued e he, h1.symm, h2.symm⟩
+          · intro e' he' ⟨y, hy, h1, h2⟩
+            simp only at hy
+            have he'p : e' ∈ s.pending := List.mem_of_mem_eraseIdx he'
+            rcases settle_ids hs y hy with ⟨z, hz, h3, h4⟩ | ⟨h3, h4⟩
+            · exact h.pendFresh e' he'p ⟨z, hz, h3.trans h1, h4.trans h2⟩
+            · obtain ⟨i, hij, hi⟩ := List.mem_eraseIdx_iff_getElem?.mp he'
+              have hk : e'.k ≠ e.k := pairwise_getElem?_ne (fun _ _ hab => Ne.symm hab) h.pendK hi hp hij
+              exact ids_ne_of_k_ne h.count hcl (h.pendIssued e' he'p) (h.pendIssued e he) hk
+                ⟨h1.symm.trans h3, h2.symm.trans h4⟩
+  | create i o =>
+    simp only [step, createStep] at hcount hpn ⊢
+    cases hc : s.copies[i]? with
+    | none => exact h
+    | some c =>
+      simp only [hc] at hcount hpn ⊢
+      split
+      · exact h
+      · rename_i hbusy
+        simp only [hbusy, Bool.false_eq_true, if_false] at hcount hpn
+        cases hs : settle (c.results ++ [unknownOf c.preName]) s.job c.preName (uidOf c.prePfx c.results.length) o with
+        | error err => exact h
+        | ok r =>
+          simp only [hs] at hcount hpn ⊢
+          have hcmem : c ∈ s.copies := List.mem_of_getElem? hc
+          -- the state after the pre-step alone
+          have h1 : ReadInv ({ s with job := r.job, preIssued := (⟨i, c.results.length, c.preName,
+              uidOf c.prePfx c.results.length⟩ : Exec) :: s.preIssued } : St) := by
+            refine ⟨h.count.mono rfl rfl (Nat.le_refl _), h.pendIssued, h.pendK, ?_, ?_⟩
+            · intro x hx
+              simp only at hx
+              rcases settle_ids hs x hx with ⟨y, hy, h1, h2⟩ | ⟨h1, _⟩
+              · rcases h.jobIds y hy with ⟨e0, he0, h3, h4⟩ | hp'
+                · exact Or.inl ⟨e0, he0, h3.trans h1, h4.trans h2⟩
+                · exact Or.inr (h1 ▸ hp')
+              · exact Or.inr (by rw [h1]; exact List.mem_map.mpr ⟨c, hcmem, rfl⟩)
+            · intro e' he' ⟨y, hy, h1, h2⟩
+              simp only at hy
+              rcases settle_ids hs y hy with ⟨z, hz, h3, h4⟩ | ⟨h3, _⟩
+              · exact h.pendFresh e' he' ⟨z, hz, h3.trans h1, h4.trans h2⟩
+              · apply hsep c.preName (List.mem_map.mpr ⟨c, hcmem, rfl⟩)
+                rw [← h3, h1]
+                exact issued_name_mem h.count (h.pendIssued e' he')
+          split
+          · exact beginExec_readInv _ i c hc hcl hsep h1
+          · rename_i hst; simp only [hst, Bool.false_eq_true, if_false] at hcount hpn
+            exact h1.mono hcount rfl rfl rfl hpn
+
+theorem run_readInv (s : St) (evs : List Event) (hcl : ClassOK s.copies) (hsep : PreSep s.copies) (h : ReadInv s) :
+    ReadInv (run s evs).1 := by
+  induction evs generalizing s with
+  | nil => exact h
+  | cons e es ih =>
+    simp only [run]
+    refine ih _ ?_ ?_ (step_readInv s e hcl hsep h)
+    · unfold ClassOK; rw [statics_step]; exact hcl
+    · unfold PreSep; rw [preNames_step, copyNames_step]; exact hsep
+
 end I2N.Lemmas.Rules
